@@ -232,7 +232,7 @@ compare_images(const Case& c, const image_type& got_in, const char* where, bool 
   if (container_frame)
     {
       // frames of a dynamic container: modality, patient position etc. are stored once for the container
-      if (!(e.time_frame_definitions == o.time_frame_definitions))
+      if (!vu::same_frames(e.time_frame_definitions, o.time_frame_definitions))
         sim::fail(std::string("round_trip:exam:time_frames:") + where, "time frame of the frame differs");
       return;
     }
@@ -241,7 +241,7 @@ compare_images(const Case& c, const image_type& got_in, const char* where, bool 
   if (!(e.patient_position == o.patient_position))
     sim::fail(std::string("round_trip:exam:patient_position:") + where, "patient position differs: %s vs %s",
               e.patient_position.get_position_as_string(), o.patient_position.get_position_as_string());
-  if (!(e.time_frame_definitions == o.time_frame_definitions))
+  if (!vu::same_frames(e.time_frame_definitions, o.time_frame_definitions))
     sim::fail(std::string("round_trip:exam:time_frames:") + where, "time frame definitions differ");
   if (!(e.get_radionuclide() == o.get_radionuclide()))
     sim::fail(std::string("round_trip:exam:radionuclide:") + where, "radionuclide differs");
